@@ -1,56 +1,51 @@
 (** C01 — Checker soundness: every accepted theorem is semantically valid.
 
-    FULL STATEMENT (not proved in this generality):
-      forall gamma claims proof st,
-        verify guards_sound gamma claims proof = Some st ->          (the checker accepts)
-        Forall mvalid (gamma_axioms guards_sound gamma) ->           (the theory is valid / empty)
-        (forall c, In c (declared_claims guards_sound gamma claims) -> mvalid c) /\
-        (forall p, In p (proved_terms st) -> mvalid p).
-    [mvalid p]: p holds at every point of every model (any carrier type, any application and
-    symbol interpretation), under every valuation of element/set variables and every *semantic*
-    valuation of its metavariables that respects their freshness constraints (this subsumes every
-    admissible syntactic instance, [C01_instances]).
-
-    PROVED: the same statement for every stream in which the ESubst *instruction* is only applied
-    to element-variable plugs ([plugs_evar], a computed boolean; true of the Quantifier axiom and of
-    every stream the Python generator emits for the shipped libraries).  What is missing: syntactic
-    substitution of a non-variable pattern for an element variable has no compositional semantics,
-    so ESubst nodes with general plugs would have to be treated as opaque atoms whose valuation
-    respects the freshness the checker judges for them (DESIGN.md section 12). *)
+    STATEMENT (proved in full, for the checker model with the sound guards = the current lib.rs):
+      for ALL byte strings gamma, claims, proof (every interleaving of every instruction with arbitrary
+      operands): if the checker accepts, and the patterns published by the gamma file are valid
+      (in particular if the theory is empty), then every declared claim and every term the final
+      state marks Proved is valid.
+    [mvalid p]: p holds at every point of every model (ANY carrier type — in particular carriers of
+    size 1..3 —, any application and symbol interpretation), under every valuation of element and set
+    variables, and under every semantic valuation of its opaque nodes (metavariables, keyed by id and
+    constraints, and ESubst nodes with a non-variable plug) that respects the freshness the checker
+    judges for them.  For a pattern without metavariables this is ordinary validity; [C01_instances]
+    shows every instance the checker's own Instantiate produces from a valid schema is valid again, so
+    every admissible concrete instance is valid in the ordinary sense. *)
 From Coq Require Import NArith List Bool.
-From Pi2 Require Import ML.Syntax ML.Subst ML.Machine ML.Facts ML.Sem ML.Sound ML.Journal ML.GuardExt ML.Refute.
+From Pi2 Require Import ML.Syntax ML.Subst ML.Machine ML.Facts ML.Concrete ML.Sem ML.Sound ML.Journal ML.Refute.
 Import ListNotations.
 Open Scope N_scope.
 
-Definition plugs_evar (gamma claimsb proofb : list N) : bool :=
-  match verify guards_evp gamma claimsb proofb with Some _ => true | None => false end.
-
-Theorem C01_soundness_partial :
+Theorem C01_soundness :
   forall gamma claimsb proofb st,
     verify guards_sound gamma claimsb proofb = Some st ->
-    plugs_evar gamma claimsb proofb = true ->
     Forall mvalid (gamma_axioms guards_sound gamma) ->
     (forall c, In c (declared_claims guards_sound gamma claimsb) -> mvalid c) /\
     (forall p, In p (proved_terms st) -> mvalid p).
-Proof.
-  intros gamma cl pr st Hv Hp Hax. unfold plugs_evar in Hp.
-  destruct (verify guards_evp gamma cl pr) as [st'|] eqn:E; [|discriminate].
-  pose proof (verify_ext _ _ same_real_evp_sound eq_refl _ _ _ _ E) as Hv'.
-  rewrite Hv in Hv'. inversion Hv'; subst st'.
-  rewrite (declared_claims_ext _ _ same_real_evp_sound eq_refl _ _ _ _ E).
-  apply (verify_sound guards_evp eq_refl eq_refl eq_refl eq_refl eq_refl eq_refl eq_refl eq_refl _ _ _ _ E).
-  unfold gamma_axioms, journal in *.
-  unfold verify, exec in E. destruct (exec_fuel guards_evp (length gamma) Gamma gamma st0) as [s1|] eqn:E1; [|discriminate].
-  rewrite <- (journal_fuel_ext _ _ same_real_evp_sound eq_refl _ _ _ _ _ E1). exact Hax.
-Qed.
-Print Assumptions C01_soundness_partial.
+Proof. exact (verify_sound guards_sound eq_refl eq_refl eq_refl eq_refl eq_refl eq_refl eq_refl). Qed.
+Print Assumptions C01_soundness.
 
-(** every admissible instance of a proved schema is valid too (simultaneous instantiation as the
-    checker performs it, constraints respected) *)
+(** empty theory: no hypothesis at all *)
+Corollary C01_soundness_empty_theory :
+  forall claimsb proofb st, verify guards_sound [] claimsb proofb = Some st ->
+    forall c, In c (declared_claims guards_sound [] claimsb) -> mvalid c.
+Proof. intros cl pr st H. apply (C01_soundness [] cl pr st H). constructor. Qed.
+
+(** every instance of a proved schema that the checker's Instantiate produces is valid too
+    (simultaneous instantiation, constraints respected, plugs arbitrary — schematic or concrete) *)
 Theorem C01_instances :
-  forall p vars plugs q, mvalid p -> evp p = true -> inst guards_sound p vars plugs = Some q -> mvalid q.
+  forall p vars plugs q, mvalid p -> inst guards_sound p vars plugs = Some q -> mvalid q.
 Proof. exact (instantiate_mvalid guards_sound eq_refl eq_refl eq_refl eq_refl). Qed.
 Print Assumptions C01_instances.
+
+(** for concrete patterns [mvalid] is ordinary validity: no atom is consulted *)
+Theorem C01_concrete_is_ordinary_validity :
+  forall p, concrete p = true -> mvalid p ->
+    forall D app_i sym_i (v:val D) d, eval D app_i sym_i (fun _ _ _ => False) p v d.
+Proof.
+  intros p _ H D a s v d. apply H. unfold av_ok, seq. repeat split; intros; tauto.
+Qed.
 
 (** in particular in every finite model: [mvalid] quantifies over all carrier types *)
 Theorem C01_finite_models :
@@ -86,8 +81,8 @@ Proof.
 Qed.
 Print Assumptions C01_unguarded_refuted.
 
-(** non-vacuity: a concrete accepted stream meets every hypothesis of C01_soundness_partial *)
+(** non-vacuity: a concrete accepted stream meets every hypothesis *)
 Example C01_nonvacuous :
-  exists st, verify guards_sound [] ok_claim ok_proof = Some st /\ plugs_evar [] ok_claim ok_proof = true /\
+  exists st, verify guards_sound [] ok_claim ok_proof = Some st /\
              declared_claims guards_sound [] ok_claim = [Imp (phi 0) (phi 0)].
-Proof. eexists. split; [|split]; vm_compute; reflexivity. Qed.
+Proof. eexists. split; vm_compute; reflexivity. Qed.
